@@ -476,7 +476,7 @@ def _glob_inv(e):
     that is kept has its form among the collected paths."""
     c = cur()
     i = sym.I(e.i)
-    paths = e.paths
+    paths = e.acc  # the list the loop collects into, whatever it is called
     if not isinstance(paths, sym.SymSeq):
         return True  # loop entry: nothing visited, nothing collected
     m, j = tm.Var(c.fresh_name("m!bound"), INT), tm.Var(c.fresh_name("j!bound"), INT)
@@ -525,5 +525,5 @@ class ng_glob:
     requires = lambda self: wrap_bool(RI(self, _res(self), assume=cur().data.get("active") == "stepup/core/nglob.py::NamedGlob.glob"))
     ensures = _glob_post
     finish = _glob_finish
-    loops = {0: LoopSpec(invariant=_glob_inv, locals=dict(paths=_PATHS, path=ty.Str))}
+    loops = {0: LoopSpec(invariant=_glob_inv, locals={"@acc": _PATHS})}
     modifies = ["self._results"]
